@@ -523,6 +523,28 @@ func (r *c16Run) emit(part, q string, items []c16Item, tail string) []c16Tok {
 	if oom {
 		e.m.OutOfModel++
 		e.count("out_of_model")
+		// the twin does not cover this text; that every token carries the text found at its offset
+		// needs no twin: quoted tokens exactly (whatever bytes they hold), ASCII words up to case
+		// (words with bytes >= 0x80 are re-encoded / trimmed by the case folding: not judged; the
+		// word KIND is not judged here either: numeric words outside the modelled fragment)
+		if pn == "" {
+			for _, t := range ts {
+				if t.Pos < 0 || t.Pos > len(q) {
+					e.fail(idx, fmt.Sprintf("token %s reports an offset outside the query %s", c16TokStr(t), strconv.Quote(q)), "C16/text-offset", rp)
+					break
+				}
+				quoted := t.Tp == kvql.STRING || (t.Tp == kvql.NAME && t.Pos < len(q) && q[t.Pos] == '`')
+				end := t.Pos + len(t.Data)
+				asciiWord := !quoted && c16ASCII(t.Data) && end <= len(q) && c16ASCII(q[t.Pos:end])
+				if !quoted && !asciiWord {
+					continue
+				}
+				if _, bad := c16TokenOK(q, t); bad != "" && !strings.Contains(bad, "must be classified as") {
+					e.fail(idx, bad+"; query "+strconv.Quote(q)+" lexed as "+c16TokList(ts), "C16/text-offset", rp)
+					break
+				}
+			}
+		}
 		return ts
 	}
 	if pn != "" {
@@ -540,6 +562,15 @@ func (r *c16Run) emit(part, q string, items []c16Item, tail string) []c16Tok {
 		}
 	}
 	return ts
+}
+
+func c16ASCII(s string) bool {
+	for i := 0; i < len(s); i++ {
+		if s[i] >= 0x80 {
+			return false
+		}
+	}
+	return true
 }
 
 func c16Unterminated(q string) bool {
@@ -840,6 +871,33 @@ func runC16(c *runCtx) error {
 				run.emit("B-long", a.text()+strings.Repeat(" ", L)+a.text()+strings.Repeat("\t", L), nil, "")
 			}
 		}
+	}
+
+	// part B-runes: quoted literals holding runes whose case-folded form has ANOTHER UTF-8 length
+	// (U+0130, the Kelvin / Angstrom / Ohm signs, U+1E9E, U+023A, U+023E), followed by words and
+	// operators under every spacing: folding the case of anything but a word shifts offsets
+	for _, lit := range []string{"\u0130stanbul", "\u212a", "\u212b\u2126", "x\u1e9ey", "\u023a\u023e\u0130\u0130"} {
+		for _, q := range []byte{'\'', '"', '`'} {
+			for _, tail := range [][]c16Lexeme{{c16Sym("|"), c16Word("Value"), c16Sym("="), c16Quote('\'', "v2")}, {c16Word("AND"), c16Word("Key"), c16Sym("<="), c16Word("12")},
+				{c16Sym(","), c16Word("x1"), c16Sym("("), c16Word("In")}} {
+				ls := append([]c16Lexeme{c16Word("where"), c16Word("key"), c16Sym("="), c16Quote(q, lit)}, tail...)
+				run.spacings("B-runes", ls[2:], "", "")
+				items := make([]c16Item, len(ls))
+				for i, l := range ls {
+					g := " "
+					if i == 0 {
+						g = ""
+					}
+					items[i] = c16Item{Gap: g, Lex: l}
+				}
+				run.emit("B-runes", c16Render(items, ""), items, "")
+			}
+		}
+	}
+	// part B-bom: a query that starts with the bytes of a byte-order mark: they are bytes of the
+	// query like any others (offsets are offsets into the text the caller holds)
+	for _, q := range []string{"\ufeffselect key where key = 'a'", "\ufeff select * where key ^= 'k' limit 3", "\ufeff", "\ufeff'lit' = key", "\ufeff`n` (1)"} {
+		run.emit("B-bom", q, nil, "")
 	}
 
 	// part C: statement corpus, then seeded random
